@@ -8,6 +8,7 @@ mod nonce;
 pub mod hs;
 pub mod node;
 mod nc09;
+mod nodefam;
 mod codec;
 mod beacon;
 mod keys;
@@ -31,6 +32,8 @@ fn dispatch(args: &[String]) -> i32 {
         ("hs", "sched") => hs::run_sched(a(3), a(4), a(5), a(6)),
         ("hs", "random") => hs::run_random(n(3), n(4), a(5), a(6), a(7)),
         ("node", "c09") => nc09::run(a(3), a(4)),
+        ("node", "fam") => nodefam::run_fam(a(3), a(4), a(5)),
+        ("node", "trust") => nodefam::run_trust(a(3), a(4)),
         ("codec", _) => codec::run(&args[2..]),
         ("beacon", _) => beacon::run(&args[2..]),
         ("keys", _) => keys::run(&args[2..]),
